@@ -12,6 +12,11 @@
   * `C02_lines_roundtrip`, `C02_oplines_roundtrip`  several newline-separated lines, one part per line;
   * `C02_full_roundtrip`     lines of lists (`;`, `&&`, `||`) of pipelines (`|`) of simple commands of
                              plain words — subsumes all of the above;
+  * `C02_full_roundtrip5`    (= `C02_full_roundtrip2` over the types as they stand) adds file-descriptor
+                             prefixes `2> w`, `10< w`, `2>>w` (`Elem.nredir`: NUMBER token, four-symbol
+                             productions, `redirect … (num n) …` nodes), anywhere in a command;
+  * `C02_full_roundtrip4`    adds a redirection as the FIRST element of a command (`GCmd.first : Elem`),
+                             also redirection-only commands (`>f`);
   * `C02_full_roundtrip3`    (= `C02_full_roundtrip2` after the in-place generalisation of `Elem`) adds the
                              redirections `> w`, `< w`, `>> w` after the first item of a command;
   * `C02_full_roundtrip2`    the same with GENERAL simple commands (`GCmd`, items `Item`): assignments
@@ -36,8 +41,12 @@
       2^30 and raise `outOfFuel` beyond); the implementation has no such bound.
   Outside the family (not claimed): empty commands (`a;;b` is `.exn (.parsing "unexpected token ';;'" …)`),
   a trailing `;` (`"a;"` gives a list node with a final operator), empty lines, `&`, `|&`, quoting,
-  expansions, a redirection as FIRST item of a command, file-descriptor prefixes (`2> w`), here-documents,
-  compound commands.
+  expansions, the other redirection operators (`>&`, `<&`, `>|`, `<>`, `&>`, `<<<`, here-documents),
+  compound commands.  (For `&`: `TokAmp.tot_nextToken_amp` is the tokenizer half; the engine path is the
+  mirror image of `;` — 6 →`&` 60, goto(60,93)=132, p153 at 132, and p149 `simple_list1 &` at 60 on
+  NEWLINE — but `SeqOps.bstack/slOf/collapse` hard-code 61/133/p154.)
+  A number is a NUMBER token only directly before `>`/`<` (`2 >f` is the word `2` and a plain redirection —
+  that spelling is `.simple (.word "2")`, gap, `.redir …`, also covered).
 
   Structure of the proof (`Props/C02/*.lean`):
   * `Tot`      a total-correctness calculus `Tot m l T P` over (parser object, tape);
@@ -55,6 +64,10 @@
                words with `=` (`tot_nextToken_gen`: assignment bookkeeping `_assignment_acceptable`),
                the item type `Item`, the run over the items (`g_items13`, `g_run13`), and the chain above
                over `GCmd`.  To add an item kind: extend `Item` and the `cases it` lemmas of `CmdG`.
+  * `TokRedir`, `TokNum`  the tokenizer on `>`, `<`, `>>` and on digits directly before `>`/`<` (NUMBER);
+               `CmdG.Elem` = item | `redir` | `nredir`; `CmdG.elem_step` (an element in state 13) and
+               `CmdG.first_step` (the first element over the base) are the two places with one case per
+               element kind.  `TokAmp`: groundwork for `&` (not used yet).
 -/
 import Bashlex.Props.C02.Glue
 import Bashlex.Props.C02.SeqGlue
@@ -63,6 +76,7 @@ import Bashlex.Props.C02.PipeGlue
 import Bashlex.Props.C02.OpsGlue
 import Bashlex.Props.C02.ShiftE
 import Bashlex.Props.C02.ShiftG
+import Bashlex.Props.C02.TokAmp
 
 namespace Bashlex.C02
 open Bashlex
@@ -1524,7 +1538,7 @@ example :
 /-! ## `C02_full_roundtrip2` subsumes `C02_full_roundtrip`: the embedding of the old commands -/
 
 def SCmd.toG (c : SCmd) : GCmd :=
-  ⟨c.lead, .word c.w1, c.items.map (fun p => (p.1, Elem.simple (Item.word p.2))), c.trail⟩
+  ⟨c.lead, .simple (.word c.w1), c.items.map (fun p => (p.1, Elem.simple (Item.word p.2))), c.trail⟩
 
 theorem spellJ_map : ∀ (items : List (Str × Str)),
     spellJ (items.map (fun p => (p.1, Elem.simple (Item.word p.2)))) = spellI items
@@ -1552,14 +1566,14 @@ theorem ItemsJ_map : ∀ (items : List (Str × Str)), ItemsOK items →
     exact ⟨h1.1, plain_item h1.2 _, ItemsJ_map r (fun x hx => h x (List.mem_cons_of_mem _ hx))⟩
 
 theorem SCmd.toG_text (c : SCmd) : c.toG.text = c.text := by
-  simp [SCmd.toG, GCmd.text, SCmd.text, lineText, spellJ_map, Item.text]
+  simp [SCmd.toG, GCmd.text, SCmd.text, lineText, spellJ_map, Item.text, Elem.text]
 
 theorem SCmd.toG_node (c : SCmd) (off : Nat) : c.toG.node off = c.node off := by
   simp [SCmd.toG, GCmd.node, GCmd.nodes, GCmd.endPos, SCmd.node, cmdNode, nodesJ_map, endJ_map,
-    Item.text, Item.node]
+    Item.text, Item.node, Elem.text, Elem.node]
 
 theorem SCmd.toG_endPos (c : SCmd) (off : Nat) : c.toG.endPos off = c.endPos off := by
-  simp [SCmd.toG, GCmd.endPos, SCmd.endPos, endJ_map, Item.text]
+  simp [SCmd.toG, GCmd.endPos, SCmd.endPos, endJ_map, Item.text, Elem.text]
 
 theorem SCmd.toG_OK {c : SCmd} (h : c.OK) : c.toG.OK :=
   ⟨h.lead, plain_item h.w1 _, h.nr, ItemsJ_map c.items h.items, h.trail⟩
@@ -1671,11 +1685,11 @@ theorem C02_full_roundtrip_of2 (ln1 : ELine) (lns : List ELine) (fin : Bool) (o 
 /-- non-vacuity of `C02_full_roundtrip2` (kernel-checked): ` a=b c=d x  e=f >out < in |ls -l >>log&&v=1`,
     then `v=1;ls -l >>log` on a second line -/
 example :
-    let g1 : GCmd := ⟨[' '], .assign ['a', '=', 'b'], [([' '], .simple (.assign ['c', '=', 'd'])),
+    let g1 : GCmd := ⟨[' '], .simple (.assign ['a', '=', 'b']), [([' '], .simple (.assign ['c', '=', 'd'])),
       ([' '], .simple (.word ['x'])), ([' ', ' '], .simple (.word ['e', '=', 'f'])),
       ([' '], .redir .gt [] ['o', 'u', 't']), ([' '], .redir .lt [' '] ['i', 'n'])], [' ']⟩
-    let g2 : GCmd := ⟨[], .assign ['v', '=', '1'], [], []⟩
-    let g3 : GCmd := ⟨[], .word ['l', 's'], [([' '], .simple (.word ['-', 'l'])),
+    let g2 : GCmd := ⟨[], .simple (.assign ['v', '=', '1']), [], []⟩
+    let g3 : GCmd := ⟨[], .simple (.word ['l', 's']), [([' '], .simple (.word ['-', 'l'])),
       ([' '], .redir .gg [] ['l', 'o', 'g'])], []⟩
     let L1 : HLine := (⟨g1, [g3]⟩, [(.andand, ⟨g2, []⟩)])
     let L2 : HLine := (⟨g2, []⟩, [(.semi, ⟨g3, []⟩)])
@@ -1694,6 +1708,62 @@ theorem C02_full_roundtrip3 (ln1 : HLine) (lns : List HLine) (fin : Bool) (o : O
     (hsz : 5 * (hlinesText fin ln1 lns).length + 20 ≤ 1073741824) :
     (parse (hlinesText fin ln1 lns) o).1 = .parts (hpartsOf 0 (ln1 :: lns)) :=
   C02_full_roundtrip2 ln1 lns fin o h1 hl hsz
+
+/-- **C02, step (4b), first half**: the statement of `C02_full_roundtrip2` over the types as they stand
+    now — the FIRST element of a simple command (`GCmd.first : Elem`) may itself be a redirection
+    `> w`, `< w`, `>> w` (`>out cmd a`, `a | <in cat`, `x && >>log`, and redirection-only commands
+    `>f`).  After a leading redirection the model accepts neither reserved words nor assignments
+    (`>f a=b` gives the WORD `a=b`), which is what `Elem.after`/`GCmd.OK` say.  (`GCmd` was generalised
+    in place; the step-(3)/(4) statement is the restriction to `first = .simple it`.) -/
+theorem C02_full_roundtrip4 (ln1 : HLine) (lns : List HLine) (fin : Bool) (o : Opts)
+    (h1 : ln1.OK) (hl : ∀ ln ∈ lns, ln.OK)
+    (hsz : 5 * (hlinesText fin ln1 lns).length + 20 ≤ 1073741824) :
+    (parse (hlinesText fin ln1 lns) o).1 = .parts (hpartsOf 0 (ln1 :: lns)) :=
+  C02_full_roundtrip2 ln1 lns fin o h1 hl hsz
+
+/-- non-vacuity of `C02_full_roundtrip4` (kernel-checked): ` >out x a=b <in|< in cat&&>>log`, then
+    `>f;>>g v=1 <h` on a second line -/
+example :
+    let g1 : GCmd := ⟨[' '], .redir .gt [] ['o', 'u', 't'], [([' '], .simple (.word ['x'])),
+      ([' '], .simple (.word ['a', '=', 'b'])), ([' '], .redir .lt [] ['i', 'n'])], []⟩
+    let g2 : GCmd := ⟨[], .redir .lt [' '] ['i', 'n'], [([' '], .simple (.word ['c', 'a', 't']))], []⟩
+    let g3 : GCmd := ⟨[], .redir .gg [] ['l', 'o', 'g'], [], []⟩
+    let g4 : GCmd := ⟨[], .redir .gt [] ['f'], [], []⟩
+    let g5 : GCmd := ⟨[], .redir .gg [] ['g'], [([' '], .simple (.word ['v', '=', '1'])),
+      ([' '], .redir .lt [] ['h'])], []⟩
+    let L1 : HLine := (⟨g1, [g2]⟩, [(.andand, ⟨g3, []⟩)])
+    let L2 : HLine := (⟨g4, []⟩, [(.semi, ⟨g5, []⟩)])
+    (parse (hlinesText true L1 [L2]) {}).1 = .parts (hpartsOf 0 [L1, L2]) := by
+  intro g1 g2 g3 g4 g5 L1 L2
+  exact C02_full_roundtrip4 L1 [L2] true {} (by decide) (by decide) (by decide)
+
+/-- **C02, step (4b), second half**: the statement of `C02_full_roundtrip2` over the types as they
+    stand now — `Elem.nredir n op g2 w` is a redirection with a file-descriptor prefix, `2> w`,
+    `10< w`, `2>>w` (digits `n` directly before the operator: the tokenizer's NUMBER token, the
+    four-symbol productions `redirection : NUMBER op WORD`), anywhere in a simple command, also first;
+    its node is `redirect (start of n, end of w) (num n) op (some (word …)) none none none` with
+    `n` read by the model's `digitsToNat`.  (`Elem` was generalised in place; the step-(4b, first half)
+    statement is the restriction to commands without `Elem.nredir`.) -/
+theorem C02_full_roundtrip5 (ln1 : HLine) (lns : List HLine) (fin : Bool) (o : Opts)
+    (h1 : ln1.OK) (hl : ∀ ln ∈ lns, ln.OK)
+    (hsz : 5 * (hlinesText fin ln1 lns).length + 20 ≤ 1073741824) :
+    (parse (hlinesText fin ln1 lns) o).1 = .parts (hpartsOf 0 (ln1 :: lns)) :=
+  C02_full_roundtrip2 ln1 lns fin o h1 hl hsz
+
+/-- non-vacuity of `C02_full_roundtrip5` (kernel-checked): ` 2>err x 10< in a=b|2>>log cat&&>o 1> p`,
+    then `v=1 2>e;0<i` on a second line -/
+example :
+    let g1 : GCmd := ⟨[' '], .nredir ['2'] .gt [] ['e', 'r', 'r'], [([' '], .simple (.word ['x'])),
+      ([' '], .nredir ['1', '0'] .lt [' '] ['i', 'n']), ([' '], .simple (.word ['a', '=', 'b']))], []⟩
+    let g2 : GCmd := ⟨[], .nredir ['2'] .gg [] ['l', 'o', 'g'], [([' '], .simple (.word ['c', 'a', 't']))], []⟩
+    let g3 : GCmd := ⟨[], .redir .gt [] ['o'], [([' '], .nredir ['1'] .gt [' '] ['p'])], []⟩
+    let g4 : GCmd := ⟨[], .simple (.assign ['v', '=', '1']), [([' '], .nredir ['2'] .gt [] ['e'])], []⟩
+    let g5 : GCmd := ⟨[], .nredir ['0'] .lt [] ['i'], [], []⟩
+    let L1 : HLine := (⟨g1, [g2]⟩, [(.andand, ⟨g3, []⟩)])
+    let L2 : HLine := (⟨g4, []⟩, [(.semi, ⟨g5, []⟩)])
+    (parse (hlinesText true L1 [L2]) {}).1 = .parts (hpartsOf 0 [L1, L2]) := by
+  intro g1 g2 g3 g4 g5 L1 L2
+  exact C02_full_roundtrip5 L1 [L2] true {} (by decide) (by decide) (by decide)
 
 end Bashlex.C02
 
@@ -1725,3 +1795,7 @@ end Bashlex.C02
 #print axioms Bashlex.C02.C02_full_roundtrip_of2
 #print axioms Bashlex.C02.elem_step
 #print axioms Bashlex.C02.C02_full_roundtrip3
+#print axioms Bashlex.C02.C02_full_roundtrip4
+#print axioms Bashlex.C02.C02_full_roundtrip5
+#print axioms Bashlex.C02.tot_nextToken_num
+#print axioms Bashlex.C02.tot_nextToken_amp
